@@ -20,6 +20,15 @@ CHECKS = {
  "C12": ("exploration", "proptest-generated conversations x arrival schedules (lock-step via an embedded reference client, pipelined, partial chunkings); safety invariant evaluated at every read() of the scripted transport",
          "The liveness-sounding statement is decided as a safety invariant at the only point the server can wait (a read() call): all wholly received commands must already be answered in bytes covered by the last flush(). In lock-step mode the transport only releases the next command when the previous reply was decoded from flushed bytes, so a missing flush shows as 'would block forever'.",
          "Blocking in-memory transport stands in for a socket; plaintext only."),
+ "C06": ("exploration", "proptest-generated text resultsets over every ToMysqlValue implementor; round-trip oracle (reference text-row decoder + canonical text grammar per intended type, floats bit-for-bit) with mysql_common's from_value as second opinion",
+         "Generated search over values of every encodable Rust type (boundary-biased full integer ranges, all finite float bit patterns, strings across the three length-encoding classes, dates in years 0-9999, temporals with and without microseconds, Option/reference/generic spellings) in generated row/column arrangements, sent through run_on and decoded by the reference client; values are compared semantically, so legal alternative spellings are not flagged.",
+         "Domain limited to what MySQL's types can hold (finite floats, whole microseconds, non-negative durations)."),
+ "C07": ("exploration", "proptest-generated binary resultsets and single encoder calls; round-trip oracle (reference binary-row decoder driven only by the advertised column definitions) plus an acceptance model (natural pair => accepted and exact, foreign type => refused, else exact-or-refused)",
+         "Generated search over column lists of 1-600 columns, NULL patterns in every spelling, type-matching values in every passing mode through the wire; and over arbitrary (value, column) pairs through the public encoder for the universal rule 'Ok => decodes exactly, otherwise refused'.",
+         "assert!-refusals are counted as refusals; opposite-signedness writes are exercised only through the public encoder."),
+ "C15": ("exploration", "exhaustive enumeration of all 8/16-bit values and all boundary values of wider types for every (Rust type, column kind) pair, plus proptest-generated wide values; oracle = mathematical equality after decoding at the column's wire width, acceptance model from the property",
+         "Finite sub-domains are enumerated completely (all u8/i8/u16/i16 values x 12 column kinds; all 2^k, 2^k+-1 and range bounds of the wider types incl. usize/isize and generic Value::Int/UInt); random wide values on top; a sample of each set also travels through a real binary resultset.",
+         "The public encoder to_mysql_bin is what RowWriter calls for every non-NULL cell; assert!-refusals count as refusals."),
 }
 NOT_YET = {}
 
